@@ -255,6 +255,25 @@ def scenario(ctx):
     sched = Scheduler(ctx, allow_stall=False)
     home = ctx.seams.home()
 
+    def earlier_connection(krdir):
+        # the process has connected before: to another conforming server (its own accepted
+        # mechanisms, its own cookie secret under the same cookie id), to completion
+        sim.probe('earlier-connection-same-process')
+        f0 = t_client.DBusClientFactory()
+        Obs(sim, 'connect0').watch(f0.getConnection())
+        p0 = sim.call(node, f0.buildProtocol, None)
+        c0 = net.Connection(sim, 'c0', node, None, unix=unix)
+        s0 = RefSaslServer([m for m in MECHS if ds.flag(0.6)], agree_fd=not ds.flag(0.5),
+                           keyring=krdir,
+                           urandom=lambda n: bytes((i * 53 + 7) & 0xff for i in range(n)))
+        c0.attach(p0, s0)
+        sched0 = Scheduler(ctx, allow_stall=False)
+        sched0.run(300)
+        sched0.drain(200)
+        if c0.a.state == net.OPEN and ds.flag(0.5):
+            sim.call(node, p0.disconnect)
+            sched0.drain(100)
+
     if mode == 'ref':
         if 'accept' in pre:
             accept = [MECHS[i] for i in range(3) if pre['accept'] & (1 << i)]
@@ -272,23 +291,7 @@ def scenario(ctx):
             kr = None
         ctx.config.update(accept=[a.decode() for a in accept], agree=agree, keyring=kstate)
         if ds.flag(0.3):
-            # the process has connected before: to another conforming server (its own accepted
-            # mechanisms, its own cookie secret under the same cookie id), to completion
-            sim.probe('earlier-connection-same-process')
-            f0 = t_client.DBusClientFactory()
-            Obs(sim, 'connect0').watch(f0.getConnection())
-            p0 = sim.call(node, f0.buildProtocol, None)
-            c0 = net.Connection(sim, 'c0', node, None, unix=unix)
-            s0 = RefSaslServer([m for m in MECHS if ds.flag(0.6)], agree_fd=not ds.flag(0.5),
-                               keyring=kr if kstate != 'missing' else None,
-                               urandom=lambda n: bytes((i * 53 + 7) & 0xff for i in range(n)))
-            c0.attach(p0, s0)
-            sched0 = Scheduler(ctx, allow_stall=False)
-            sched0.run(300)
-            sched0.drain(200)
-            if c0.a.state == net.OPEN and ds.flag(0.5):
-                sim.call(node, p0.disconnect)
-                sched0.drain(100)
+            earlier_connection(kr if kstate != 'missing' else None)
         server = RefSaslServer(accept, agree_fd=agree, keyring=kr if kstate != 'missing' else None,
                                urandom=lambda n: bytes((i * 37 + 11) & 0xff for i in range(n)))
         server.messy_keyring = bool(pre.get('messy', ds.flag(0.5)))
@@ -336,6 +339,8 @@ def scenario(ctx):
         return
 
     # ---- scripted server -------------------------------------------------------------
+    if 'lines' not in pre and ds.flag(0.2):
+        earlier_connection(ctx.seams.keyring())
     server = ScriptServer('script')
     conn.attach(proto, server)
     if 'lines' in pre:
